@@ -190,7 +190,12 @@ func pseudoText(p selPseudo, variant int) string {
 func compoundText(c selCompound, variant int) string {
 	var b strings.Builder
 	if c.Tag != "*" || (!c.Cls && !c.ID && len(c.Pcs) == 0) {
-		b.WriteString(tagName(c.Tag))
+		if variant%2 == 1 {
+			// type selectors of HTML documents are ASCII case-insensitive, for known and for unknown elements
+			b.WriteString(strings.ToUpper(tagName(c.Tag)))
+		} else {
+			b.WriteString(tagName(c.Tag))
+		}
 	}
 	if c.ID {
 		b.WriteString("#i")
